@@ -1395,6 +1395,7 @@ package go9p
 
 //@ func lookup(uid, group) (id, err)
 //@   property C17 C06
+//@   at call(os/user.Lookup) ensures ret1 == nil ==> ret0 != nil
 //@   ensures  err != nil ==> fresh(err)
 //@   assigns  fresh
 
@@ -1437,3 +1438,50 @@ package go9p
 //@   at call(os.Stat) requires [confined] confined(arg0)
 //@   at call(os.Chtimes) requires [args] confined(arg0)
 //@   at call(os.Stat) ensures ret1 == nil ==> ret0 != nil
+
+// ---------------------------------------------------------------------------
+// C20: the message logger. hist(l, k) is the k-th entry received on l.logchan (a prophecy of the channel's
+// receive order); the ghost counter hn counts the entries received so far. Resize is outside the property's
+// quantifier (Log/Filter histories) and is excluded by an assumption on the select.
+
+//@ rec hist(l int, k int) int
+//@ pure lmatch(it, f) = (f.owner == nil || it.Owner == f.owner) && (f.itype == 0 || it.Type == f.itype)
+//@ pure age(l, p) = ite(l.idx - 1 - p >= 0, l.idx - 1 - p, l.idx - 1 - p + len(l.items))
+
+//@ func (*Logger).doLog(l)
+//@   property C20 C06
+//@   requires l != nil && len(l.items) >= 1 && l.idx == 0
+//@   requires forall k int :: 0 <= k && k < len(l.items) ==> l.items[k] == nil
+//@   ghost hn int = 0
+//@   at select(*) ensures ret0 != 1
+//@   at select(*) ensures ret0 == 0 ==> ret2 == hist(l, hn) && ret2 != nil
+//@   at select(*) ensures ret0 == 2 ==> ret4 != nil
+//@   at select(*) after hn := ite(ret0 == 0, hn + 1, hn)
+//@   at send(flt.fltchan) requires [bounded] len(its) <= len(l.items)
+//@   at send(flt.fltchan) requires [matching] forall k int :: 0 <= k && k < len(its) ==> its[k] != nil && lmatch(its[k], flt)
+//@   loop 1
+//@     invariant l != nil && len(l.items) >= 1 && 0 <= l.idx && l.idx <= len(l.items) && hn >= 0 && len(l.items) == old(len(l.items))
+//@     invariant hn < len(l.items) ==> l.idx == hn
+//@     invariant hn >= len(l.items) ==> l.idx >= 1
+//@     invariant forall p int :: 0 <= p && p < len(l.items) && age(l, p) < hn ==> l.items[p] == hist(l, hn - 1 - age(l, p))
+//@   loop 2
+//@     invariant false
+//@   loop 3
+//@     invariant l != nil && flt != nil && 0 <= n && n <= rangeindex + 1 && -1 <= rangeindex && rangeindex < len(l.items) && len(l.items) >= 1
+//@     invariant 0 <= l.idx && l.idx <= len(l.items) && hn >= 0 && len(l.items) == old(len(l.items))
+//@     invariant hn < len(l.items) ==> l.idx == hn
+//@     invariant hn >= len(l.items) ==> l.idx >= 1
+//@     invariant forall p int :: 0 <= p && p < len(l.items) && age(l, p) < hn ==> l.items[p] == hist(l, hn - 1 - age(l, p))
+//@   loop 4
+//@     invariant l != nil && flt != nil && 0 <= m && m <= len(its) && len(its) <= len(l.items) && 0 <= i && i <= len(l.items) && len(l.items) >= 1 && fresh(its) && obj(its) != obj(l.items)
+//@     invariant forall k int :: 0 <= k && k < m ==> its[k] != nil && lmatch(its[k], flt)
+//@     invariant 0 <= l.idx && l.idx <= len(l.items) && hn >= 0 && len(l.items) == old(len(l.items))
+//@     invariant hn < len(l.items) ==> l.idx == hn
+//@     invariant hn >= len(l.items) ==> l.idx >= 1
+//@     invariant forall p int :: 0 <= p && p < len(l.items) && age(l, p) < hn ==> l.items[p] == hist(l, hn - 1 - age(l, p))
+
+//@ func NewLogger(sz) (l)
+//@   property C20 C06
+//@   requires sz >= 0
+//@   ensures  sz == 0 ==> l == nil
+//@   ensures  sz != 0 ==> l != nil && fresh(l) && len(l.items) == sz && l.idx == 0
